@@ -74,6 +74,8 @@ func (mc *Checker) CheckPeers(peers []peer.ID) error {
 				if err != nil {
 					return err
 				}
+			} else {
+				mc.resetFailed(peer, name)
 			}
 		}
 	}
@@ -89,10 +91,29 @@ func (mc *Checker) CheckAll() error {
 			if err != nil {
 				return err
 			}
+		} else {
+			mc.resetFailed(metric.Peer, metric.Name)
 		}
 	}
 
 	return nil
+}
+
+// resetFailed forgets that we alerted for a metric once it is healthy
+// again. Otherwise, when a metric is renewed right after an alert, the next
+// time it expires it would be silently removed without any alert.
+func (mc *Checker) resetFailed(pid peer.ID, metricName string) {
+	mc.failedPeersMu.Lock()
+	defer mc.failedPeersMu.Unlock()
+
+	failedMetrics, ok := mc.failedPeers[pid]
+	if !ok {
+		return
+	}
+	delete(failedMetrics, metricName)
+	if len(failedMetrics) == 0 {
+		delete(mc.failedPeers, pid)
+	}
 }
 
 func (mc *Checker) alert(pid peer.ID, metricName string) error {
